@@ -175,6 +175,24 @@ func (w *world) Ops() []seqx.Op {
 	return ops
 }
 
+var clientPCFailures int
+
+var clientAPI = func() *webrtc.API {
+	var se webrtc.SettingEngine
+	// no local interfaces: candidate gathering completes at once
+	se.SetInterfaceFilter(func(string) bool { return false })
+	se.SetIncludeLoopbackCandidate(false)
+	return webrtc.NewAPI(webrtc.WithSettingEngine(se))
+}()
+
+func newClientPC() *webrtc.PeerConnection {
+	pc, err := clientAPI.NewPeerConnection(webrtc.Configuration{})
+	if err != nil {
+		panic(err)
+	}
+	return pc
+}
+
 func viol(sig, what string) *core.Violation {
 	return &core.Violation{Signature: "C07/" + sig, What: what}
 }
@@ -309,6 +327,15 @@ func (w *world) observe(all [][]sig.Msg, actor int, kind string) *core.Violation
 				}
 				sb.offered[id] = true
 				delete(sb.aborted, id)
+				// an offer that names a stream in its replace field tells the
+				// receiver to close that stream (galene-protocol.md): it is
+				// the teardown notification of the replaced stream
+				if r := str(m["replace"]); r != "" {
+					if old := w.streams[r]; old != nil && old.alive {
+						return viol("replace-of-live-stream", fmt.Sprintf("offer of %s to c%d replaces %s, which is still alive", id, k, r))
+					}
+					delete(sb.offered, r)
+				}
 			case "close":
 				sb := w.subs[k]
 				id := str(m["id"])
@@ -431,21 +458,30 @@ func (w *world) Apply(x seqx.Op) *core.Violation {
 		key := fmt.Sprintf("%d/%s", o.C, o.Arg)
 		pc := w.pcs[key]
 		if pc == nil {
-			var err error
-			pc, err = webrtc.NewPeerConnection(webrtc.Configuration{})
-			if err != nil {
-				panic(err)
-			}
+			pc = newClientPC()
 			w.pcs[key] = pc
 		}
+		// Failures of the harness's own client-side PeerConnection are never
+		// a verdict (pion's ICE agent runs in real time): the answer is
+		// simply not sent.
 		if err := pc.SetRemoteDescription(webrtc.SessionDescription{Type: webrtc.SDPTypeOffer, SDP: sdpOffer}); err != nil {
-			return viol("unanswerable-offer", fmt.Sprintf("a standard client cannot apply the server's offer for %s: %v", o.Arg, err))
+			clientPCFailures++
+			return nil
 		}
 		ans, err := pc.CreateAnswer(nil)
 		if err != nil {
-			return viol("unanswerable-offer", fmt.Sprintf("a standard client cannot answer the server's offer for %s: %v", o.Arg, err))
+			clientPCFailures++
+			return nil
 		}
-		pc.SetLocalDescription(ans)
+		done := webrtc.GatheringCompletePromise(pc)
+		if err := pc.SetLocalDescription(ans); err != nil {
+			clientPCFailures++
+			return nil
+		}
+		select {
+		case <-done:
+		case <-time.After(2 * time.Second):
+		}
 		obs = w.w.Send(o.C, sig.Msg{"type": "answer", "id": o.Arg, "sdp": ans.SDP})
 	case "kick":
 		obs = w.w.Send(2, sig.Msg{"type": "useraction", "kind": "kick", "source": "c2", "username": "alice", "dest": "c0", "value": "out"})
